@@ -37,6 +37,7 @@ enum RimeVerifYieldPoint {
   RIME_VERIF_GETSESSION_ACCEPTED = 11,
   RIME_VERIF_CREATESESSION_ACCEPTED = 12,
   RIME_VERIF_FINISHWORK_ENTER = 13,
+  RIME_VERIF_CLEANUPALL_ENTER = 14,
 };
 enum RimeVerifTaskEvent {
   RIME_VERIF_TASK_SCHEDULED = 0,
